@@ -42,7 +42,7 @@ T_Call ==
                             /\ SameKeys(r0.keys, e.post.keys) /\ r0.rolls = e.post.rolls)
           /\ keys' = r.keys
           /\ rolls' = r.rolls
-          /\ last' = [op |-> e.op, res |-> e.res, acts |-> e.ret]
+          /\ last' = [acts |-> e.ret, op |-> e.op, res |-> e.res]
           /\ used' = used \cup d
 
 TNext == T_Call
